@@ -1,5 +1,5 @@
 From Coq Require Import List NArith Bool.
-From V.Ts Require Import Model Proofs Rearm Timing.
+From V.Ts Require Import Model Proofs Rearm Timing Extra Exact Names Multi MultiProofs.
 Import ListNotations.
 Open Scope N_scope.
 From V.C09 Require Import Properties.
@@ -72,3 +72,63 @@ Check (C09_idle_close_exact :
      exists t, kfind (p, c) (s_act (fst (step s dt e))) = Some t /\
                s_now (fst (step s dt e)) = t + s_T (fst (step s dt e))) /\
   (forall c, 0 < pend_on c (s_pend s) \/ 0 < ch_held_of c (s_chans s) -> 0 < strong s c)).
+Check (C09_active_iff_recent :
+  forall tr ka T n0 k,
+  feasible 2 env0 (init ka T n0) tr = true ->
+  In k (e_live (efinal env0 tr)) ->
+  let s := final (init ka T n0) tr in
+  exists t, kfind k (s_act s) = Some t /\ t <= s_now s /\
+            (handle_active (s_ctxs s) k = true <-> s_now s < t + s_T s)).
+Check (C09_tracked_is_active :
+  forall tr ka T n0 k t,
+  feasible 2 env0 (init ka T n0) tr = true ->
+  kfind k (s_last (final (init ka T n0) tr)) = Some t ->
+  handle_active (s_ctxs (final (init ka T n0) tr)) k = true).
+Check (C09_view_is_live :
+  forall tr ka T n0 p,
+  feasible 2 env0 (init ka T n0) tr = true ->
+  conn_ids (s_ctxs (final (init ka T n0) tr)) p = live_of p (e_live (efinal env0 tr))).
+Check (C09_open_counts_for_primary :
+  forall e s p k,
+  conn_inv e (s_ctxs s) (s_pend s) -> ka_activity_of s (EOpen p) = Some k ->
+  fst k = p /\ hd_error (live_of p (e_live e)) = Some (snd k) /\ s_ka s = true).
+Check (C09_other_connection_untouched :
+  forall e s dt i k,
+  conn_inv e (s_ctxs s) (s_pend s) -> ev_ok 2 e s i = true ->
+  ka_activity_of (with_now s (s_now s + dt)) i <> Some k -> (forall p c, i = EClosed p c -> k <> (p, c)) ->
+  kfind k (s_last (fst (mid s dt i))) = kfind k (s_last s) /\
+  kfind k (s_act (fst (mid s dt i))) = kfind k (s_act s) /\
+  (handle_active (s_ctxs s) k = true -> handle_active (s_ctxs (fst (mid s dt i))) k = true)).
+Check (C09_multi_closed_iff_all_let_go :
+  forall tr cap cfg n0 p c,
+  mfeasible 2 env0 (minit cap cfg n0) tr = true -> In (p, c) (e_live (mefinal env0 tr)) ->
+  let m := mfinal (minit cap cfg n0) tr in
+  (mstrong (m_svcs m) c = 0 <-> Forall (fun s => let_go s (p, c)) (m_svcs m)) /\
+  map (fun s => (s_ka s, s_T s)) (m_svcs m) = cfg /\
+  Forall (fun s => s_now s = elapsed tr) (m_svcs m)).
+Check (C09_multi_active_iff_recent :
+  forall tr cap cfg n0 s k,
+  mfeasible 2 env0 (minit cap cfg n0) tr = true ->
+  In s (m_svcs (mfinal (minit cap cfg n0) tr)) -> In k (e_live (mefinal env0 tr)) ->
+  exists t, kfind k (s_act s) = Some t /\ t <= s_now s /\
+            (handle_active (s_ctxs s) k = true <-> s_now s < t + s_T s)).
+Check (C09_multi_next_none_iff :
+  forall m dt c,
+  In c (m_sets m) ->
+  (snd (snd (mstep m dt (MNext c))) = NEnd <->
+   qfind c (push_all 0 (m_q m) (fst (snd (mstep m dt (MNext c))))) = [] /\
+   mstrong (m_svcs (fst (mstep m dt (MNext c)))) c = 0)).
+Check (C09_name_table_main :
+  forall tbl pr,
+  NoDup (all_names tbl) -> In pr tbl ->
+  classify tbl (p_main pr) = Some (p_ka pr) /\ resolve tbl (p_main pr) = (p_main pr, None)).
+Check (C09_name_table_fallback :
+  forall tbl pr f,
+  NoDup (all_names tbl) -> In pr tbl -> In f (p_fbs pr) ->
+  classify tbl f = Some (p_ka pr) /\ resolve tbl f = (p_main pr, Some f)).
+Check (C09_name_table_nothing_else :
+  forall tbl nm, NoDup (map p_main tbl) -> ~ In nm (all_names tbl) -> classify tbl nm = None).
+Check (C09_name_table_own_name_lookup_refuted :
+  exists tbl pr f,
+  NoDup (all_names tbl) /\ In pr tbl /\ In f (p_fbs pr) /\
+  classify tbl f = Some true /\ classify_by_own_name tbl f = Some false).
